@@ -202,13 +202,97 @@ def specDesc (cs : List Char) : Option Bytes :=
   | "wtb" | "wtf" => (natOf arg).bind (fun v => if v < 2^62 then some (specVarint 0x41 ++ specVarint v) else none)
   | _ => ofFrame cs
 
+/-! ### `wbuf datac:<hex>|<hex>|…` / `wbuf pair:<ty>:datac:…`: a payload in segments -/
+
+/-- segments separated by `|`; `-` (or nothing) = an empty segment -/
+def parseSegs (cs : List Char) : Option (List Bytes) :=
+  (splitC '|' cs).mapM (fun c => if c.isEmpty then some [] else hexOf c)
+
+inductive BuiltC where
+  | ok (w : Option WBC) (flat : Bytes)
+  | badOp
+  | notChunked
+
+def buildDescC (cs : List Char) : BuiltC :=
+  let (k, arg) := match splitOnce ':' cs with | some p => p | none => (cs, [])
+  match str k with
+  | "datac" =>
+    (match parseSegs arg with
+     | some segs => .ok (fromDataC segs) segs.flatten
+     | none => .badOp)
+  | "pair" =>
+    (match splitOnce ':' arg with
+     | none => .notChunked
+     | some (ty, fd) =>
+       match splitOnce ':' fd with
+       | some (k2, a2) =>
+         if str k2 == "datac" then
+           (match natOf ty, parseSegs a2 with
+            | some v, some segs => .ok (fromPairDataC v segs) segs.flatten
+            | _, _ => .badOp)
+         else .notChunked
+       | none => .notChunked)
+  | _ => .notChunked
+
+def drainAllC : Nat → WBC → Option Bytes
+  | 0, _ => some []
+  | fuel+1, w =>
+    let c := w.chunk
+    if c.isEmpty then some []
+    else match w.advance c.length with
+      | none => none
+      | some w' => (drainAllC fuel w').map (c ++ ·)
+
+def runPatC : WBC → List Pat → Bytes → List String → Option (Bytes × List String)
+  | w, [], all, acc =>
+    (drainAllC (w.pay.length + 4) w).map (fun rest => (all ++ rest, acc ++ [s!"left={hexOrDash rest}"]))
+  | w, .take k :: ps, all, acc =>
+    match w.step k with
+    | none => none
+    | some (o, w') => runPatC w' ps (all ++ o) (acc ++ [s!"{hexOrDash o}:r{w'.remaining}"])
+  | w, .adv n :: ps, all, acc =>
+    match w.advance n with
+    | none => none
+    | some w' => runPatC w' ps all (acc ++ [s!"a:r{w'.remaining}"])
+
+/-- the specification sees the flattened payload only: `00`, its total length, the bytes (behind
+    the stream type for a pair) -/
+def specDescC (cs : List Char) (flat : Bytes) : Option Bytes :=
+  let (k, arg) := match splitOnce ':' cs with | some p => p | none => (cs, [])
+  match str k with
+  | "datac" => specFrame (.data flat)
+  | "pair" =>
+    (match splitOnce ':' arg with
+     | some (ty, _) =>
+       (match natOf ty, specFrame (.data flat) with
+        | some v, some b => if v < 2^62 then some (specVarint v ++ b) else none
+        | _, _ => none)
+     | none => none)
+  | _ => none
+
+def wbufHandleC (desc : String) (ps : List Pat) (w : Option WBC) (flat : Bytes) : String :=
+  let bare := ps.any (fun p => match p with | .adv _ => true | _ => false)
+  let spec := match specDescC desc.toList flat with
+    | some b => if bare then "?" else s!"all={hexOrDash b} r{b.length} **"
+    | none => "?"
+  match w with
+  | none => "panic ## ?"
+  | some w =>
+    match runPatC w ps [] [s!"r{w.remaining}"] with
+    | none => "panic ## ?"
+    | some (all, out) => s!"all={hexOrDash all} " ++ " ".intercalate out ++ " ## " ++ spec
+
 def wbufHandle (desc pat : String) : String :=
   match parsePat pat with
   | none => "bad-op"
   | some ps =>
+    match buildDescC desc.toList with
+    | .badOp => "bad-op"
+    | .ok w flat => wbufHandleC desc ps w flat
+    | .notChunked =>
     let bare := ps.any (fun p => match p with | .adv _ => true | _ => false)
     let spec := match specDesc desc.toList with
-      | some b => if bare then "?" else s!"all={hexOrDash b} **"
+      | some b => if bare then "?" else s!"all={hexOrDash b} r{b.length} **"
       | none => "?"
     match buildDesc desc.toList with
     | .badOp => "bad-op"
@@ -220,6 +304,42 @@ def wbufHandle (desc pat : String) : String :=
       | none => "panic ## ?"
       | some (all, out) => s!"all={hexOrDash all} " ++ " ".intercalate out ++ " ## " ++ spec
 
+/-! ### `sdc`: a real connection typed with a segmented payload (mirror of `e_c14.rs`, engine `sdc`) -/
+
+/-- the calls in order (their bytes), the credit: which calls return, what the stream holds -/
+def sdcRender (items : List Bytes) (credit : Nat) : String :=
+  let total := items.flatten
+  let rec go : List Bytes → Nat → List String
+    | [], _ => ["ok"]                       -- `finish()`
+    | b :: r, acc => if acc + b.length ≤ credit then "ok" :: go r (acc + b.length) else ["pending"]
+  let calls := go items 0
+  let whole := decide (total.length ≤ credit)
+  s!"0:tx={toHex (total.take credit)}" ++ (if whole then ",fin" else "") ++ " calls=" ++ ",".intercalate calls
+
+def sdcHandle (wcS grantsS : String) (rest : List String) : String :=
+  let grants : Option (List Nat) :=
+    if grantsS == "-" then some [] else (splitC ',' grantsS.toList).mapM natOf
+  match wcS.toNat?, grants with
+  | some wc, some gs =>
+    let fs : Option Bytes := rest.findSome? (fun t =>
+      match t.toList with | '#' :: 'f' :: 's' :: ':' :: h => hexOf h | _ => none)
+    let pays : Option (List (List Bytes)) :=
+      (rest.filter (fun t => !t.startsWith "#")).mapM (fun t => parseSegs t.toList)
+    (match fs, pays with
+     | some fs, some pays =>
+       let credit := wc + gs.foldl (· + ·) 0
+       let model : Option (List Bytes) :=
+         (fromFrame (.headers fs) :: pays.map (fun p => (fromDataC p).map WBC.flat)).mapM
+           (fun w => w.map (·.view))
+       let spec : Option (List Bytes) :=
+         (specFrame (.headers fs) :: pays.map (fun p => specFrame (.data p.flatten))).mapM id
+       let specS := match spec with | some items => sdcRender items credit | none => "?"
+       (match model with
+        | some items => sdcRender items credit ++ " ## " ++ specS
+        | none => "panic ## ?")
+     | _, _ => "bad-op")
+  | _, _ => "bad-op"
+
 /-! ### rendering of per-stream logs -/
 
 structure SLog where
@@ -227,9 +347,30 @@ structure SLog where
   tx : Bytes
   fin : Bool
   writing : Bool
-  other : List String   -- flags this property does not talk about
+  /-- h3 reset the stream with this code -/
+  rst : Option Nat := none
+  misuse : Bool := false
+  overlap : Bool := false
 deriving Repr
 
+/-- one flag of a stream token; `none` = not in the alphabet -/
+def applyFlag (l : SLog) (f : List Char) : Option SLog :=
+  match str f with
+  | "fin" => some { l with fin := true }
+  | "writing" => some { l with writing := true }
+  | "MISUSE" => some { l with misuse := true }
+  | "OVERLAP" => some { l with overlap := true }
+  | _ =>
+    match splitOnce '=' f with
+    | some (k, v) =>
+      (match str k, natOf v with
+       | "rst", some c => some { l with rst := some c }
+       -- `stop=`: h3 asked the peer to stop sending (receive side; C04 / C17 judge that)
+       | "stop", some _ => some l
+       | _, _ => none)
+    | none => none
+
+/-- `<sid>:tx=<hex>[,flag]…` -/
 def parseSLog (tok : String) : Option SLog :=
   match splitOnce ':' tok.toList with
   | none => none
@@ -238,12 +379,18 @@ def parseSLog (tok : String) : Option SLog :=
     | some sid, tx :: flags =>
       (match tx with
        | 't' :: 'x' :: '=' :: h =>
-         (hexOf h).map (fun b =>
-           { sid := sid, tx := b, fin := flags.contains "fin".toList,
-             writing := flags.contains "writing".toList,
-             other := (flags.filter (fun f => f != "fin".toList && f != "writing".toList)).map str })
+         (hexOf h).bind (fun b =>
+           flags.foldlM applyFlag ({ sid := sid, tx := b, fin := false, writing := false } : SLog))
        | _ => none)
     | _, _ => none
+
+/-- `key=[a,b,…]` -/
+def parseBracket (key : String) (tok : String) : Option (List String) :=
+  let pre := key ++ "=["
+  if tok.startsWith pre && tok.endsWith "]" then
+    let inner := ((tok.toList.drop pre.length).reverse.drop 1).reverse
+    some (if inner.isEmpty then [] else (splitC ',' inner).map str)
+  else none
 
 def renderViolation : Violation → String
   | .truncated => "truncated"
@@ -257,9 +404,69 @@ def renderViolation : Violation → String
   | .badPayload ty => s!"bad-payload({ty})"
   | .criticalClosed => "critical-stream-closed"
   | .notOurStream => "not-our-stream"
+  | .criticalReset => "critical-stream-reset"
+  | .duplicateCritical ty => s!"second-critical-stream({ty})"
+  | .writeAfterEnd => "write-after-end"
+  | .overlappingWrite => "overlapping-write"
 
-def verdict (cx : Ctx) (ls : List SLog) : String :=
-  match ls.findSome? (fun l => (checkStream cx l.sid l.tx l.fin).map (fun v => (l.sid, v))) with
+/-- what excuses a stream from holding whole frames although nothing is being written on it, as
+    far as it follows from the case line: the peer's STOP_SENDING (`x<sid>:<code>`), the peer
+    closing the connection / a timeout (`C<code>`, `T`: every stream), a call abandoned in
+    mid-write (`<task>.kill`: the task's stream; `conn` / `drv` / `snd`: every stream) — R-14 -/
+structure Cuts where
+  all : Bool := false
+  sids : List Nat := []
+deriving Repr
+
+def taskSid (task : List Char) : Option Nat :=
+  match task with
+  | 'q' :: r => natOf (r.filter Char.isDigit)
+  | _ => none
+
+def cutsOfOp (c : Cuts) (op : String) : Cuts :=
+  match op.toList with
+  | 'x' :: r =>
+    (match splitOnce ':' r with
+     | some (sid, _) => (match natOf sid with | some n => { c with sids := n :: c.sids } | none => c)
+     | none => c)
+  | 'T' :: [] => { c with all := true }
+  | 'C' :: r => if (natOf r).isSome then { c with all := true } else c
+  | cs =>
+    match splitOnce '.' cs with
+    | some (task, cmd) =>
+      if cmd == "kill".toList || cmd == "kill?".toList then
+        (match taskSid task with
+         | some n => { c with sids := n :: c.sids }
+         | none => { c with all := true })
+      else c
+    | none => c
+
+def cutsOf (ops : List String) : Cuts := ops.foldl cutsOfOp {}
+
+/-- the streams a pending call keeps busy: `q<sid>[s].<cmd>` its stream, a call of `conn` / `drv`
+    (build, shutdown, accept's GOAWAY) the endpoint's own unidirectional streams, `snd.R` the
+    newest request stream -/
+def busyBy (cx : Ctx) (pending : List String) (ls : List SLog) (sid : Nat) : Bool :=
+  pending.any (fun p =>
+    match splitOnce '.' p.toList with
+    | none => true
+    | some (task, _) =>
+      match taskSid task with
+      | some n => n == sid
+      | none =>
+        if task == "snd".toList then
+          sid % 4 == 0 && ls.all (fun l => l.sid % 4 != 0 || l.sid ≤ sid)
+        else ownUni cx sid)
+
+def obsOf (cx : Ctx) (cuts : Cuts) (closed : Bool) (pending : List String) (ls : List SLog)
+    (l : SLog) : Obs :=
+  { sid := l.sid, tx := l.tx, fin := l.fin,
+    busy := l.writing || busyBy cx pending ls l.sid,
+    cut := cuts.all || closed || cuts.sids.contains l.sid,
+    rst := l.rst.isSome, misuse := l.misuse, overlap := l.overlap }
+
+def verdict (cx : Ctx) (cuts : Cuts) (closed : Bool) (pending : List String) (ls : List SLog) : String :=
+  match checkEndpoint cx (ls.map (obsOf cx cuts closed pending ls)) with
   | none => "valid"
   | some (sid, v) => s!"INVALID:{sid}:{renderViolation v}"
 
@@ -339,14 +546,18 @@ inductive Mode where
 deriving DecidableEq
 
 def renderStreams (mode : Mode) (ls : List SLog) : List String :=
-  (ls.filter (fun l => !l.tx.isEmpty || l.fin || l.writing)).map (fun l =>
+  (ls.filter (fun l => !l.tx.isEmpty || l.fin || l.writing || l.rst.isSome || l.misuse || l.overlap)).map (fun l =>
     let body := match mode with
       | .shape => s!"{l.sid}:sh={shapeStream l.sid l.tx}"
       | .literal => s!"{l.sid}:tx={toHex l.tx}"
-    body ++ (if l.fin then ",fin" else "") ++ (if l.writing then ",writing" else ""))
+    body ++ (if l.fin then ",fin" else "") ++
+      (match l.rst with | some c => s!",rst={c}" | none => "") ++
+      (if l.misuse then ",MISUSE" else "") ++ (if l.overlap then ",OVERLAP" else "") ++
+      (if l.writing then ",writing" else ""))
 
-def renderAll (mode : Mode) (cx : Ctx) (ls : List SLog) (pending : String) : String :=
-  verdict cx ls ++ " | " ++ " ".intercalate (renderStreams mode ls ++ [pending])
+def renderAll (mode : Mode) (cx : Ctx) (cuts : Cuts) (closed : Bool) (ls : List SLog) (pending : String) : String :=
+  verdict cx cuts closed ((parseBracket "pending" pending).getD ["?"]) ls ++ " | " ++
+    " ".intercalate (renderStreams mode ls ++ [pending])
 
 /-! ### configuration -/
 
@@ -397,15 +608,46 @@ def effectiveCfg (server : Bool) (c : Config) : Config :=
 
 /-! ### `outlog`: the harness' summary judged by the specification and re-rendered -/
 
+/-- a token of the harness' summary, or `none` when it is not in the alphabet -/
+inductive SumTok where
+  | stream (l : SLog)
+  | closed (codes : List String)
+  | pending (names : List String)
+  | other
+
+def parseSumTok (tok : String) : Option SumTok :=
+  match parseSLog tok with
+  | some l => some (.stream l)
+  | none =>
+    match parseBracket "closed" tok with
+    | some c => some (.closed c)
+    | none =>
+      match parseBracket "pending" tok with
+      | some p => some (.pending p)
+      | none =>
+        if (parseBracket "dgrams" tok).isSome || (parseBracket "fired" tok).isSome then some .other
+        else none
+
+/-- `outlog <role> <cfg> [<ops of the case line> @@] <summary tokens>`.  A token outside the
+    alphabet is never skipped: `BAD:unknown-token(<tok>)`. -/
 def outlogHandle (role cfgS : String) (toks : List String) : String :=
   match parseCfg cfgS with
   | none => "bad-op"
   | some sc =>
+    if role != "server" && role != "client" then "bad-op" else
     let server := role == "server"
     let cx : Ctx := { server := server, wt := (effectiveCfg server sc.cfg).wt }
-    let ls := toks.filterMap parseSLog
-    let pending := (toks.find? (·.startsWith "pending=")).getD "pending=[]"
-    renderAll (modeOf sc) cx ls pending
+    let (ops, sumToks) := match toks.span (· != "@@") with
+      | (a, _ :: b) => (a, b)
+      | (a, []) => ([], a)
+    match sumToks.find? (fun t => (parseSumTok t).isNone) with
+    | some t => s!"BAD:unknown-token({t})"
+    | none =>
+      let parsed := sumToks.filterMap parseSumTok
+      let ls := parsed.filterMap (fun t => match t with | .stream l => some l | _ => none)
+      let closed := parsed.any (fun t => match t with | .closed (_ :: _) => true | _ => false)
+      let pending := (sumToks.find? (·.startsWith "pending=")).getD "pending=[]"
+      renderAll (modeOf sc) cx (cutsOf ops) closed ls pending
 
 /-! ### `out`: the scenario replayed on the model -/
 
@@ -431,6 +673,10 @@ structure TaskS where
   alive : Bool := true
   /-- after the pending write completes: the task ends (431 answer of `resolve_request`) -/
   dieAfter : Bool := false
+  /-- a `snd` task: which `SendRequest` handle it owns (`XState.handles`) -/
+  handle : Nat := 0
+  /-- the task kept the receive half after `split` -/
+  recvHalf : Bool := false
 deriving Repr
 
 structure Sc where
@@ -468,6 +714,13 @@ structure Sc where
   closing : Bool := false
   /-- the last `SendRequest` was dropped: the connection error H3_NO_ERROR ends `wait_idle` -/
   sndDropped : Bool := false
+  /-- `XState.frozen` / `XState.handles` of the extended machine -/
+  frozen : List (Nat × Stream × Option Nat) := []
+  handles : List Bool := []
+  /-- streams for which the peer's STOP_SENDING has arrived -/
+  peerStopped : List Nat := []
+  /-- a call was abandoned while SimQuic still held its `WriteBuf`: the summary keeps saying `writing` -/
+  ghostWriting : List Nat := []
 
 def Sc.cfg (s : Sc) : Config := effectiveCfg s.server s.sc.cfg
 
@@ -487,7 +740,27 @@ def Sc.setCredit (s : Sc) (sid c : Nat) : Sc :=
 def Sc.stream? (s : Sc) (sid : Nat) : Option Stream :=
   s.m.bind (fun m => (m.streams.find? (·.1 == sid)).map (·.2))
 
-def Sc.mstep (s : Sc) (st : Step) : Sc := { s with m := s.m.map (fun m => step m st) }
+/-- one step of the extended machine (`H3.SendSide.xstep`) -/
+def Sc.xs (s : Sc) (x : XStep) : Sc :=
+  match s.m with
+  | none => s
+  | some m =>
+    let r := xstep { st := m, frozen := s.frozen, handles := s.handles } x
+    { s with m := some r.st, frozen := r.frozen, handles := r.handles }
+
+def Sc.mstep (s : Sc) (st : Step) : Sc := s.xs (.api st)
+
+/-- SimQuic's `poll_finish` does not look at STOP_SENDING / RESET_STREAM: a `finish()` on a stream that
+    has ended still sets FIN - unless its grease frame is due, whose write fails first -/
+def Sc.finFrozen (s : Sc) (sid : Nat) : Sc :=
+  { s with frozen := s.frozen.map (fun e =>
+      if e.1 == sid && !e.2.1.grease then (e.1, { e.2.1 with fin := true }, e.2.2) else e) }
+
+def Sc.isFrozen (s : Sc) (sid : Nat) : Bool := s.frozen.any (fun e => e.1 == sid)
+
+/-- a stream h3 has just begun to use may have been stopped by the peer before -/
+def Sc.stopIfStopped (s : Sc) (sid : Nat) : Sc :=
+  if s.peerStopped.contains sid then s.xs (.peerStop sid 0) else s
 
 def logLen (s : Sc) (sid : Nat) : Nat := ((s.stream? sid).map (·.log.length)).getD 0
 
@@ -600,7 +873,7 @@ def tryAccept : Nat → Sc → Option (Sc × Nat)
       if rejected then tryAccept fuel s
       else
         let largest := match s.lastAccepted with | some l => max l sid | none => sid
-        some ({ s with lastAccepted := some largest, accepted := s.accepted + 1 }.mstep (.acceptRequest sid), sid)
+        some (({ s with lastAccepted := some largest, accepted := s.accepted + 1 }.mstep (.acceptRequest sid)).stopIfStopped sid, sid)
 
 /-- one command of a task that is not busy; returns the new state -/
 def execCmd (s : Sc) (t : TaskS) (cmd : String) (hint : Option Bytes) : Sc :=
@@ -644,7 +917,14 @@ def execCmd (s : Sc) (t : TaskS) (cmd : String) (hint : Option Bytes) : Sc :=
   | .snd =>
     (match op with
      | "R" => if s.closing || s.recvClosing then s else setBusy s (.openBidi hint)
-     | "dr" => die { s with sndDropped := true, driving := false }
+     | "cl" =>
+       -- `SendRequest::clone`: another handle (task `snd2`, `snd3`, …) with a copy of the grease flag
+       let n := (s.tasks.filter (fun t => t.kind == .snd)).length
+       let h := if s.handles.isEmpty then 1 else s.handles.length
+       (s.xs (.cloneSender t.handle)).spawn { name := s!"snd{n + 1}", kind := .snd, handle := h }
+     | "dr" =>
+       let others := s.tasks.any (fun o => o.kind == .snd && o.alive && o.name != t.name)
+       if others then die s else die { s with sndDropped := true, driving := false }
      | _ => s)
   | .resolver sid =>
     (match op with
@@ -669,7 +949,14 @@ def execCmd (s : Sc) (t : TaskS) (cmd : String) (hint : Option Bytes) : Sc :=
        (match hexOf arg with
         | some b => setBusy (s.mstep (.sendData sid b)) (.stream sid)
         | none => s)
-     | "fi" => setBusy (s.mstep (.finish sid bigDraw)) (.stream sid)
+     | "fi" =>
+       if s.isFrozen sid then s.finFrozen sid
+       else setBusy (s.mstep (.finish sid bigDraw)) (.stream sid)
+     | "rs" => s.xs (.stopStream sid ((natOf arg).getD 0))
+     | "ss" => s.xs (.stopSending sid ((natOf arg).getD 0))
+     | "sp" =>
+       (s.updTask t.name (fun t => { t with recvHalf := true })).spawn
+         { name := t.name ++ "s", kind := .req sid }
      | "dr" => die s
      | _ => s)
 
@@ -718,7 +1005,7 @@ def resume (s : Sc) (t : TaskS) (b : BusyOn) : Option Sc :=
        if s.closing || s.recvClosing then some (free s) else
        (match hint with
         | some fs =>
-          some ((s.mstep (.sendRequest sid fs)).updTask t.name
+          some (((s.xs (.sendRequestVia t.handle sid fs)).stopIfStopped sid).updTask t.name
             (fun t => { t with busy := some ("R", .stream sid) }))
         | none => some (free s)))
   | .forever => none
@@ -768,6 +1055,23 @@ def applyOp (s : Sc) (op : String) : Option Sc :=
   | cs =>
     match isApiOp op with
     | some (task, cmd) =>
+      if cmd == "kill" || cmd == "kill?" then
+        -- the task's future is dropped with everything it owns: a request task's send side ends where
+        -- it is (the receive half after `split` owns no send side)
+        match s.tasks.find? (fun t => t.name == task && t.alive) with
+        | none => if cmd == "kill" then none else some s
+        | some t =>
+          -- (the harness keeps listing the call a killed task was in as pending)
+          let s := s.updTask task (fun t => { t with alive := false, mailbox := [] })
+          (match t.kind with
+           | .req sid =>
+             if t.recvHalf then some s
+             else
+               let ghost := match s.stream? sid with | some st => st.cur.isSome | none => false
+               some ({ s with ghostWriting := if ghost then sid :: s.ghostWriting else s.ghostWriting }.xs (.abandon sid))
+           | .resolver _ => some s
+           | _ => none)
+      else
       let hint := s.hint
       let s := { s with hint := none }
       some (s.updTask task (fun t => if t.alive then { t with mailbox := t.mailbox ++ [(cmd, hint)] } else t))
@@ -812,6 +1116,24 @@ def applyOp (s : Sc) (op : String) : Option Sc :=
             | _, _ => none)
          | none => none)
       | 'f' :: r => (natOf r).map (fun _ => s)
+      | 'x' :: r =>
+        -- STOP_SENDING: the call in progress on that stream fails, nothing more is written there
+        (match splitOnce ':' r with
+         | some (sid, c) =>
+           (match natOf sid, natOf c with
+            | some sid, some c =>
+              if s.known.contains sid then some ({ s with peerStopped := sid :: s.peerStopped }.xs (.peerStop sid c))
+              else some s
+            | _, _ => none)
+         | none => none)
+      | 'r' :: r =>
+        -- RESET_STREAM from the peer: the receive side
+        (match splitOnce ':' r with
+         | some (sid, c) =>
+           (match natOf sid, natOf c with
+            | some sid, some c => some (s.xs (.peerReset sid c))
+            | _, _ => none)
+         | none => none)
       | 'g' :: 'u' :: r => (natOf r).map (fun k => { s with uc := s.uc.map (· + k) })
       | 'g' :: 'b' :: r => (natOf r).map (fun k => { s with bc := s.bc.map (· + k) })
       | 'g' :: 'w' :: r =>
@@ -834,7 +1156,7 @@ def insertSorted (x : String) : List String → List String
 
 def pendingOf (s : Sc) : String :=
   let names := s.tasks.filterMap (fun t =>
-    if !t.alive then none
+    if !t.alive && t.busy.isNone then none
     else match t.busy with
       | some (op, _) => some s!"{t.name}.{op}"
       | none => if t.kind == .drv && s.driving then some s!"{t.name}.W" else none)
@@ -845,7 +1167,10 @@ def logsOf (s : Sc) : List SLog :=
   | none => []
   | some m =>
     let ls := m.streams.map (fun e =>
-      ({ sid := e.1, tx := e.2.log, fin := e.2.fin, writing := e.2.cur.isSome, other := [] } : SLog))
+      ({ sid := e.1, tx := e.2.log, fin := e.2.fin, writing := e.2.cur.isSome } : SLog)) ++
+      s.frozen.map (fun e =>
+        ({ sid := e.1, tx := e.2.1.log, fin := e.2.1.fin, writing := s.ghostWriting.contains e.1,
+           rst := e.2.2 } : SLog))
     -- by stream id, as the harness prints them
     (ls.foldr (fun l acc =>
       let (a, b) := acc.span (fun x => x.sid < l.sid)
@@ -871,10 +1196,12 @@ def outHandle (role cfgS : String) (ops : List String) : String :=
     | .error e => e
     | .ok s =>
       let cx : Ctx := { server := server, wt := s.cfg.wt }
-      renderAll (modeOf sc) cx (logsOf s) (pendingOf s) ++ " ## valid **"
+      renderAll (modeOf sc) cx (cutsOf ops) false (logsOf s) (pendingOf s) ++ " ## valid **"
 
 def handle : List String → String
   | ["wbuf", desc, pat] => wbufHandle desc pat
+  | "sdc" :: "client" :: wc :: grants :: rest => sdcHandle wc grants rest
+  | "sdc" :: "server" :: wc :: grants :: rest => sdcHandle wc grants rest
   | "out" :: role :: cfg :: ops => outHandle role cfg ops
   | "outlog" :: role :: cfg :: toks => outlogHandle role cfg toks
   | _ => "bad-op"
